@@ -153,3 +153,18 @@ fn accepted(c: &StrategyConfig) -> bool {
         && c.max_inflight.0 >= 1
         && c.initial_sequence.0 <= MAX_INITIAL_SEQUENCE
 }
+
+/// Exactly what `Builder::build` accepts (after the F11 repair), restated; the harness
+/// `c16_builder_rejects_unsupported` (builder.rs) checks the real `build()` rejects the complement.
+#[allow(dead_code)]
+fn builder_accepts(c: &StrategyConfig) -> bool {
+    let ports_ok = match (c.protocol, c.multipath_strategy, c.port_direction) {
+        (Protocol::Icmp, _, _) => true,
+        (_, _, PortDirection::None) => false,
+        (Protocol::Udp, MultipathStrategy::Classic, PortDirection::FixedBoth(_, _)) => false,
+        (Protocol::Tcp, _, PortDirection::FixedBoth(_, _)) => false,
+        _ => true,
+    };
+    ports_ok && c.first_ttl.0 >= 1 && c.first_ttl.0 <= MAX_TTL && c.max_ttl.0 <= MAX_TTL
+        && c.initial_sequence.0 <= MAX_INITIAL_SEQUENCE
+}
